@@ -98,7 +98,8 @@ class VCSAPI:
             logger.info(cmd_str)
         else:
             logger.debug(cmd_str)
-        cmd_parts = shlex.split(cmd_str)
+        # split the template, then substitute: a value is always exactly one argument
+        cmd_parts = [part.format(**kwargs) for part in shlex.split(cmd_tmpl)]
         _verif.emit("vcs.cmd", vcs=self.name, name=cmd_name, argv=cmd_parts)
         output_data: bytes = sp.check_output(cmd_parts, env=env, stderr=sp.PIPE)
 
